@@ -199,11 +199,17 @@ func c08ObjInput(c *c08Case, env *fw.Env, v *fw.V) {
 		id = "DataObject_order"
 	}
 	g.Objects = []gen.DataObject{{ID: id, Name: name, Body: `{"v": 1}`}, {ID: "other", Name: "other", Body: `{"v": -1}`}}
+	inRef := id
+	if c.Names == "via-reference" {
+		// B's data input names a data object reference, which stands for the data object A writes
+		g.Objects = append(g.Objects, gen.DataObject{ID: "Ref_order", Name: "orderRef", RefOf: id})
+		inRef = "Ref_order"
+	}
 	s := g.Add(gen.Start, "start", "")
 	a := g.Add(gen.Task, "A", "")
 	a.Outputs = []string{name + "=" + id}
 	b := g.Add(gen.Task, "B", "")
-	b.Inputs = []string{name + "=" + id, "other=other"}
+	b.Inputs = []string{name + "=" + inRef, "other=other"}
 	b.Writes = []string{"again"}
 	xm := g.Add(gen.Xor, "xm", "")
 	xs := g.Add(gen.Xor, "xs", "")
@@ -397,7 +403,7 @@ func c08Cases(tier string, seed uint64) []fw.Case {
 	}
 	// a stored data output read through the data input of a later task
 	for _, between := range []string{"none", "task", "sub", "side"} {
-		for _, names := range []string{"id-equals-name", "id-differs"} {
+		for _, names := range []string{"id-equals-name", "id-differs", "via-reference"} {
 			for _, loop := range []bool{false, true} {
 				c := c08Case{Kind: "object-input", Route: between, Names: names, Loop: loop, Reps: 1}
 				c.Name = fmt.Sprintf("object-input/%s-%s-loop%v", between, names, loop)
@@ -999,7 +1005,7 @@ func init() {
 			v.Nontrivial = true
 			return v
 		},
-		Rule:        "answer histories per request: 1..3 Do calls x sequential / concurrent behind a barrier x payload {results, data objects, both} x names {declared, undeclared, mixed} x hooks off/on (concurrent ones repeated 30/300 times), checked with a porcupine write-once-register model over the Do call/return history and the observed effective marker, plus blocked-caller census, declared-only storage, downstream visibility (gateway branch, next task's properties and data inputs) and late Do; 1..4 answers arriving after the instance's context was cancelled (none may block); a catalogue of ~100 values of every kind (integer widths, floats, strings, booleans, byte slices, nested maps / slices / structs, pointers, nil) answered as declared result and as declared data output, read back in canonical form from the variables and the next task's data inputs; error histories: handler {none, skip, exit, retry n=0..3} x success on attempt 0..4 x extra Do; retry answers whose budget differs from answer to answer (all budget sequences of length 2..3 over 0..3; the k-th failing answer with budget b re-requests only while k-1 < b) x success attempt, followed by a second always-failing task on the same token (requested 1..budget+1 times); all cases non-trivial; distinct = descriptor hash; inputs scenario with typed properties (text, float, integer, boolean) bound by reference to a stored result; object-input scenario: a stored data output read through the data input of a later task with nothing / a task / a sub-process between them or a sub-process on a parallel branch, id = name and id differing, three rounds in a loop",
+		Rule:        "answer histories per request: 1..3 Do calls x sequential / concurrent behind a barrier x payload {results, data objects, both} x names {declared, undeclared, mixed} x hooks off/on (concurrent ones repeated 30/300 times), checked with a porcupine write-once-register model over the Do call/return history and the observed effective marker, plus blocked-caller census, declared-only storage, downstream visibility (gateway branch, next task's properties and data inputs) and late Do; 1..4 answers arriving after the instance's context was cancelled (none may block); a catalogue of ~100 values of every kind (integer widths, floats, strings, booleans, byte slices, nested maps / slices / structs, pointers, nil) answered as declared result and as declared data output, read back in canonical form from the variables and the next task's data inputs; error histories: handler {none, skip, exit, retry n=0..3} x success on attempt 0..4 x extra Do; retry answers whose budget differs from answer to answer (all budget sequences of length 2..3 over 0..3; the k-th failing answer with budget b re-requests only while k-1 < b) x success attempt, followed by a second always-failing task on the same token (requested 1..budget+1 times); all cases non-trivial; distinct = descriptor hash; inputs scenario with typed properties (text, float, integer, boolean) bound by reference to a stored result; object-input scenario: a stored data output read through the data input of a later task with nothing / a task / a sub-process between them or a sub-process on a parallel branch, id = name, id differing, or read through a data object reference, three rounds in a loop",
 		Exhaustive:  func(string) bool { return true },
 		Assumptions: []string{"each Do carries a unique marker for a declared field so the effective answer identifies the call that won"},
 	})
